@@ -45,7 +45,7 @@ func poolD(ic string, tier string) []string {
 	return d
 }
 
-var paramValues = []string{"", "1", "12", "a", "b", "z", "1/b", "1-2", "a/b", "a-b", "1.h", "ab", "1bb", "1-12-b", "abb", "a/b/b", "*", "\u0661", "\u00e9"} // the last: a non-ASCII digit and letter
+var paramValues = []string{"", "1", "12", "a", "b", "z", "1/b", "1-2", "a/b", "a-b", "1.h", "ab", "1bb", "1-12-b", "abb", "a/b/b", "*", "\u0661", "\u00e9", "a\nb"} // a non-ASCII digit and letter; a line feed ('.' in a rule does not match it)
 
 // probeSet builds the finite probe set of a table.
 func probeSet(pats []*ref.Pattern, maxLen int) []string {
